@@ -196,7 +196,7 @@ func semContained(p, q string) bool {
 }
 
 func runC10(c *Ctx) {
-	c.Res.Rule = "every combination of satisfying/violating each of the five binding conditions (issuer = exporter directly or via issuer_account, addressed to the importer, same kind, granted subject contains the imported subject, token authentic) x signer {exporter identity, exporter signing key + issuer_account, operator + issuer_account} x layout {v2, v1} x random accounts / subjects / kinds / expiry, standalone and embedded in a rich account, alone and next to a second import of the same list that carries the same token string and is correctly bound by it; plus tampered tokens, non-activation tokens and garbage. Oracle: the import is non-blocking exactly when the harness's own reading of the token (own header/payload parser, own nkey decoder, crypto/ed25519) satisfies all conditions; semantic containment is decided independently. non-trivial = distinct (import, token) pairs."
+	c.Res.Rule = "every combination of satisfying/violating each of the five binding conditions (issuer = exporter directly or via issuer_account, addressed to the importer, same kind, granted subject contains the imported subject, token authentic) x signer {exporter identity, exporter signing key + issuer_account, operator + issuer_account} x layout {v2, v1} x random accounts / subjects / kinds / expiry, standalone and embedded in a rich account, alone and next to a second import of the same list that carries the same token string and is correctly bound by it; plus tampered tokens, non-activation tokens (user tokens; generic claims without a kind whose data section is shaped like a fitting activation) and garbage. Oracle: the import is non-blocking exactly when the harness's own reading of the token (own header/payload parser, own nkey decoder, crypto/ed25519) satisfies all conditions; semantic containment is decided independently. non-trivial = distinct (import, token) pairs."
 	rng = rngT{c.R}
 	subjects := []struct{ imported, grantOK, grantBad string }{
 		{"foo.bar", "foo.>", "foo.baz"}, {"foo.bar", "foo.bar", "foo"}, {"a.*", "a.*", "a.b"}, {"a.*.c", "a.>", "b.>"},
@@ -269,7 +269,18 @@ func runC10(c *Ctx) {
 					genuine := ""
 					if mask&16 != 0 { // tampered / foreign
 						genuine = tok
-						switch c.R.Intn(5) {
+						switch c.R.Intn(6) {
+						case 5:
+							// not an activation at all: generic claims without any kind whose data section is shaped like
+							// an activation that would satisfy every binding
+							g := jwt.NewGenericClaims(actSub)
+							g.Data["subject"] = grant
+							g.Data["kind"] = map[int]string{1: "stream", 2: "service"}[actType]
+							if issuerAccount != "" {
+								g.Data["issuer_account"] = issuerAccount
+							}
+							tok, _ = g.Encode(kp)
+							note = "typeless-generic-shaped-like-activation"
 						case 4:
 							// the payload altered so that it grants everything, under the genuine signature
 							segs := strings.Split(tok, ".")
